@@ -120,7 +120,16 @@ func (t *Input) CoerceIn(v interface{}) (interface{}, error) {
 							return nil, inErr(err, k)
 						}
 					} else {
-						tv[k] = f.Default
+						// The default is coerced like a provided value. It is
+						// copied first since it belongs to the schema.
+						dv := cloneValue(f.Default)
+						if co, _ := f.Type.(InCoercer); co != nil {
+							var err error
+							if dv, err = co.CoerceIn(dv); err != nil {
+								return nil, inErr(err, k)
+							}
+						}
+						tv[k] = dv
 					}
 				} else if _, ok := f.Type.(*NonNull); ok {
 					return nil, fmt.Errorf("%s is required but missing", k)
@@ -150,6 +159,25 @@ func (t *Input) CoerceIn(v interface{}) (interface{}, error) {
 		}
 	}
 	return v, nil
+}
+
+// cloneValue copies the lists and maps of a value.
+func cloneValue(v interface{}) interface{} {
+	switch tv := v.(type) {
+	case map[string]interface{}:
+		m := make(map[string]interface{}, len(tv))
+		for k, mv := range tv {
+			m[k] = cloneValue(mv)
+		}
+		return m
+	case []interface{}:
+		l := make([]interface{}, len(tv))
+		for i, lv := range tv {
+			l[i] = cloneValue(lv)
+		}
+		return l
+	}
+	return v
 }
 
 func inErr(err error, k string) error {
